@@ -267,12 +267,14 @@ class CallTracer:
         # from a function returning (or yielding) None. In the latter case, the
         # the last instruction that was executed should always be a return or a
         # yield.
-        typ = get_type(arg, max_typed_dict_size=self.max_typed_dict_size)
-        last_opcode = frame.f_code.co_code[frame.f_lasti]
         trace = self.traces.get(frame)
         if trace is None:
+            # Not a call we are tracing (filtered out or not sampled): leave
+            # its return value alone.
             return
-        elif last_opcode == YIELD_VALUE_OPCODE:
+        typ = get_type(arg, max_typed_dict_size=self.max_typed_dict_size)
+        last_opcode = frame.f_code.co_code[frame.f_lasti]
+        if last_opcode == YIELD_VALUE_OPCODE:
             # A coroutine suspending on an await also stops on YIELD_VALUE;
             # that is not a value yielded to a caller.
             if not frame.f_code.co_flags & inspect.CO_COROUTINE:
